@@ -209,6 +209,23 @@ include!("%s/src/%s");
         self.crates.append(name)
         return name
 
+    def add_crate(self, name, main_rs, deps="serde_json = \"1\"\n"):
+        """A binary crate with the given main.rs text (for harnesses that are not lexer batches)."""
+        d = ensure_dir(os.path.join(self.crate_dir(name), "src"))
+        write_if_changed(os.path.join(self.crate_dir(name), "Cargo.toml"), """[package]
+name = "%s"
+version = "0.0.0"
+edition = "2021"
+
+[dependencies]
+%s
+""" % (name, deps))
+        write_if_changed(os.path.join(d, "main.rs"), main_rs)
+        # always rebuild: the included sources of /repo are not tracked by cargo through #[path]
+        os.utime(os.path.join(d, "main.rs"))
+        self.crates.append(name)
+        return name
+
     def finish_manifest(self):
         # Remove crates from earlier runs that are not part of this one.
         for entry in os.listdir(self.root):
